@@ -122,11 +122,11 @@ Theorem continue_transparent p fuel s c :
   strat s <> SWarnPause -> is_init c = false ->
   do_cmd fuel (truncate p) s c = do_cmd fuel p s c.
 Proof.
-  intros Hs Hc. destruct c; try discriminate; cbn [do_cmd]; auto.
-  - destruct (rep s); auto. apply do_start_trunc; auto.
+  intros Hs Hc. destruct c; try discriminate; cbn [do_cmd]; try reflexivity.
+  - destruct (rep s); [|reflexivity]. apply do_start_trunc; exact Hs.
   - apply do_step_trunc.
-  - apply do_start_trunc; auto.
-  - apply do_start_trunc; auto.
+  - apply do_start_trunc; exact Hs.
+  - apply do_start_trunc; exact Hs.
   - apply do_end_repl_trunc.
 Qed.
 
